@@ -9,7 +9,7 @@ from ..selftest import Mutant
 
 ID = "C20"
 TECHNIQUE = "registry exhaustiveness and per-class writer/reader table agreement (as_stanza keys vs __init__ parameters vs _cmp_list attributes, resolved through the in-repo MRO) (K6/K7), loop-body partition (K3) (ast)"
-FLOOR = 40
+FLOOR = 51
 CF = "breezy/bzr/conflicts.py"
 WT = "breezy/bzr/workingtree.py"
 EXPLANATION = """
